@@ -546,6 +546,10 @@ _DOC = "src/odfdo/document.py"
 _MA = "src/odfdo/manifest.py"
 _MAN = "src/odfdo/manifest.py"
 SEEDS = [
+    Seed("Document.mimetype setter updates the root entry only if the manifest is loaded", "fault", "src/odfdo/document.py",
+         "        self.manifest.add_full_path(\"/\", mimetype)", "        if self.__xmlparts.get(ODF_MANIFEST) is not None:\n            self.manifest.add_full_path(\"/\", mimetype)", "R04d"),
+    Seed("Document.mimetype setter names the manifest first", "neutral", "src/odfdo/document.py",
+         "        self.manifest.add_full_path(\"/\", mimetype)", "        manifest = self.manifest\n        manifest.add_full_path(\"/\", mimetype)"),
     Seed("the folder reader tolerates white space around the mimetype it then keeps raw", "fault", _CT,
          "        if bytes_to_str(mimetype) not in ODF_MIMETYPES:", "        if bytes_to_str(mimetype).strip() not in ODF_MIMETYPES:", "R04j"),
     Seed("Blob.from_path looks unknown extensions up in a small table without default", "fault", _DOC,
